@@ -43,7 +43,7 @@ def callee_ref(route, uid, j):
         return 'NS.sub.' + base
     if route == 'method':
         return 'self.' + base
-    if route == 'param':
+    if route in ('param', 'param_kw', 'param_default'):
         return 'fn%d' % j
     if route == 'partial':
         return base
@@ -195,6 +195,17 @@ def render(prog, uid):
         lines.append('def F%s(%s%s):' % (uid, fns, ', ' + outer_txt if outer_txt else ''))
         lines.extend(ind + ln for ln in body_lines(prog, uid))
         lines.append('W%s = functools.partial(F%s, %s)' % (uid, uid, ', '.join('C%s_%d' % (uid, j) for j in range(n))))
+        return '\n'.join(lines) + '\n'
+    if prog.route in ('param_kw', 'param_default'):
+        # the callee arrives through a keyword-only parameter fn0: bound by keyword / only a default value
+        opt = prog.route == 'param_default'
+        sh2 = tuple(p for p in prog.outer if p[1] != VK) + (('fn0', KWO, opt),) + tuple(p for p in prog.outer if p[1] == VK)
+        lines.append('def F%s(%s):' % (uid, space.render(sh2, {'fn0': 'C%s_0' % uid})))
+        lines.extend(ind + ln for ln in body_lines(prog, uid))
+        if opt:
+            lines.append('W%s = functools.partial(F%s, 0)' % (uid, uid))
+        else:
+            lines.append('W%s = functools.partial(F%s, fn0=C%s_0)' % (uid, uid, uid))
         return '\n'.join(lines) + '\n'
     lines.append('def W%s(%s):' % (uid, outer_txt))
     lines.extend(ind + ln for ln in body_lines(prog, uid))
